@@ -15,7 +15,7 @@ META = {
                  'layout, rounding digits of extents and increments, bytes consumed per sub-grid against the skip arithmetic of the '
                  'interpolator; file offset of each of the 4 / 16 nodes read; the bilinear and bicubic results (four fields each) against the '
                  'bilinear blend and the bicubic Hermite patch with central-difference derivatives; interpolation weights; row / column / '
-                 'column-count arithmetic; half-open containment, finest-grid selection, None outside; stencil-inside-grid guard; sign and unit of the 2-D shift',
+                 'column-count arithmetic; half-open containment, finest-grid selection, None outside; stencil-inside-grid guard; sign and unit of the 2-D shift; the node count added while stepping over a sub-grid is that sub-grid\'s own gs_count',
     'explanation': 'Static: the binary reader is abstractly evaluated with a symbolic file cursor, so every field\'s offset is an exact affine form; '
                    'the interpolators are evaluated with each node value an opaque atom keyed by its file offset and compared with reference '
                    'interpolants written independently (Hermite basis, not the 16x16 matrix). Decides layout agreement between writer-side '
